@@ -66,6 +66,63 @@ class MatchResult:
         return f"MatchResult({self._groups!r}, index={self.index})"
 
 
+_WORD_CHARS = frozenset(
+    "abcdefghijklmnopqrstuvwxyzABCDEFGHIJKLMNOPQRSTUVWXYZ0123456789_"
+)
+# WhiteSpace and LineTerminator of the ECMAScript grammar
+_SPACE_CHARS = frozenset(
+    "\t\n\v\f\r \xa0\u1680\u2000\u2001\u2002\u2003\u2004\u2005\u2006"
+    "\u2007\u2008\u2009\u200a\u2028\u2029\u202f\u205f\u3000\ufeff"
+)
+
+
+def _is_digit(ch: str) -> bool:
+    """\\d is [0-9] only, not every Unicode digit."""
+    return "0" <= ch <= "9"
+
+
+def _is_word(ch: str) -> bool:
+    """\\w is [A-Za-z0-9_] only."""
+    return ch in _WORD_CHARS
+
+
+def _is_space(ch: str) -> bool:
+    return ch in _SPACE_CHARS
+
+
+def _canonicalize(ch: str) -> str:
+    """ECMAScript Canonicalize for case-insensitive matching (non-unicode mode).
+
+    A character maps to its upper-case form unless that form is longer than one
+    character or would turn a non-ASCII character into an ASCII one.
+    """
+    upper = ch.upper()
+    if len(upper) != 1:
+        return ch
+    if ord(ch) >= 128 and ord(upper) < 128:
+        return ch
+    return upper
+
+
+_case_equivalents: dict = {}
+
+
+def _equivalents(ch: str) -> tuple:
+    """All characters that canonicalize to the same character as ch (ch included)."""
+    if not _case_equivalents:
+        classes: dict = {}
+        for cp in range(0x10000):
+            c = chr(cp)
+            classes.setdefault(_canonicalize(c), []).append(c)
+        for members in classes.values():
+            if len(members) > 1:
+                group = tuple(members)
+                for c in members:
+                    _case_equivalents[c] = group
+        _case_equivalents[""] = ()
+    return _case_equivalents.get(ch, (ch,))
+
+
 class RegexVM:
     """
     Regex bytecode virtual machine.
@@ -242,7 +299,9 @@ class RegexVM:
 
                 ch = string[sp - 1 if backward else sp]
                 if self.ignorecase:
-                    match = ord(ch.lower()) == char_code or ord(ch.upper()) == char_code
+                    match = ord(ch) == char_code or _canonicalize(
+                        ch
+                    ) == _canonicalize(chr(char_code))
                 else:
                     match = ord(ch) == char_code
 
@@ -273,7 +332,7 @@ class RegexVM:
                 pc += 1
 
             elif opcode == Op.DIGIT:
-                if (sp <= 0 if backward else sp >= len(string)) or not string[sp - 1 if backward else sp].isdigit():
+                if (sp <= 0 if backward else sp >= len(string)) or not _is_digit(string[sp - 1 if backward else sp]):
                     if not stack:
                         return None
                     pc, sp, captures, registers = self._backtrack(stack)
@@ -282,7 +341,7 @@ class RegexVM:
                 pc += 1
 
             elif opcode == Op.NOT_DIGIT:
-                if (sp <= 0 if backward else sp >= len(string)) or string[sp - 1 if backward else sp].isdigit():
+                if (sp <= 0 if backward else sp >= len(string)) or _is_digit(string[sp - 1 if backward else sp]):
                     if not stack:
                         return None
                     pc, sp, captures, registers = self._backtrack(stack)
@@ -291,7 +350,7 @@ class RegexVM:
                 pc += 1
 
             elif opcode == Op.WORD:
-                if (sp <= 0 if backward else sp >= len(string)) or not (string[sp - 1 if backward else sp].isalnum() or string[sp - 1 if backward else sp] == "_"):
+                if (sp <= 0 if backward else sp >= len(string)) or not _is_word(string[sp - 1 if backward else sp]):
                     if not stack:
                         return None
                     pc, sp, captures, registers = self._backtrack(stack)
@@ -300,7 +359,7 @@ class RegexVM:
                 pc += 1
 
             elif opcode == Op.NOT_WORD:
-                if (sp <= 0 if backward else sp >= len(string)) or (string[sp - 1 if backward else sp].isalnum() or string[sp - 1 if backward else sp] == "_"):
+                if (sp <= 0 if backward else sp >= len(string)) or _is_word(string[sp - 1 if backward else sp]):
                     if not stack:
                         return None
                     pc, sp, captures, registers = self._backtrack(stack)
@@ -309,7 +368,7 @@ class RegexVM:
                 pc += 1
 
             elif opcode == Op.SPACE:
-                if (sp <= 0 if backward else sp >= len(string)) or not string[sp - 1 if backward else sp].isspace():
+                if (sp <= 0 if backward else sp >= len(string)) or not _is_space(string[sp - 1 if backward else sp]):
                     if not stack:
                         return None
                     pc, sp, captures, registers = self._backtrack(stack)
@@ -318,7 +377,7 @@ class RegexVM:
                 pc += 1
 
             elif opcode == Op.NOT_SPACE:
-                if (sp <= 0 if backward else sp >= len(string)) or string[sp - 1 if backward else sp].isspace():
+                if (sp <= 0 if backward else sp >= len(string)) or _is_space(string[sp - 1 if backward else sp]):
                     if not stack:
                         return None
                     pc, sp, captures, registers = self._backtrack(stack)
@@ -335,23 +394,22 @@ class RegexVM:
                     continue
 
                 ch = string[sp - 1 if backward else sp]
-                ch_code = ord(ch.lower() if self.ignorecase else ch)
+                # Ignoring case, the class matches when it holds any character
+                # with the same canonical form
+                codes = (
+                    [ord(c) for c in _equivalents(ch)]
+                    if self.ignorecase
+                    else (ord(ch),)
+                )
 
                 matched = False
                 for start, end in ranges:
-                    if self.ignorecase:
-                        # Check both cases
+                    for ch_code in codes:
                         if start <= ch_code <= end:
                             matched = True
                             break
-                        ch_upper = ord(ch.upper())
-                        if start <= ch_upper <= end:
-                            matched = True
-                            break
-                    else:
-                        if start <= ch_code <= end:
-                            matched = True
-                            break
+                    if matched:
+                        break
 
                 if matched:
                     sp += step
@@ -370,12 +428,19 @@ class RegexVM:
                     continue
 
                 ch = string[sp - 1 if backward else sp]
-                ch_code = ord(ch.lower() if self.ignorecase else ch)
+                codes = (
+                    [ord(c) for c in _equivalents(ch)]
+                    if self.ignorecase
+                    else (ord(ch),)
+                )
 
                 matched = False
                 for start, end in ranges:
-                    if start <= ch_code <= end:
-                        matched = True
+                    for ch_code in codes:
+                        if start <= ch_code <= end:
+                            matched = True
+                            break
+                    if matched:
                         break
 
                 if not matched:
@@ -528,7 +593,12 @@ class RegexVM:
                     pc, sp, captures, registers = self._backtrack(stack)
                     continue
 
-                if string[lo : lo + len(captured)].lower() == captured.lower():
+                candidate = string[lo : lo + len(captured)]
+                if candidate == captured or (
+                    self.ignorecase
+                    and [_canonicalize(c) for c in candidate]
+                    == [_canonicalize(c) for c in captured]
+                ):
                     sp += step * len(captured)
                     pc += 1
                 else:
@@ -655,8 +725,7 @@ class RegexVM:
     def _is_word_boundary(self, string: str, pos: int) -> bool:
         """Check if position is at a word boundary."""
 
-        def is_word_char(ch: str) -> bool:
-            return ch.isalnum() or ch == "_"
+        is_word_char = _is_word
 
         before = pos > 0 and is_word_char(string[pos - 1])
         after = pos < len(string) and is_word_char(string[pos])
